@@ -82,6 +82,40 @@ func c18Corpus(rg *rand.Rand, quick bool) []c18Stream {
 	}
 	full := cat(P["connect-will"], P["subscribe3"], P["publish1"], P["publish2"], P["pubrel"], P["puback"], P["unsubscribe"], P["pingreq"], P["disconnect"])
 	add("full-session", full)
+	// valid multi-packet sessions: SUBSCRIBE / UNSUBSCRIBE / PUBLISH / acknowledgement packets over filters of
+	// different lengths, repeated and out of order (every one of them legal after CONNECT)
+	{
+		fs := []string{"h/a", "h/bb", "h/+/b", "#", "h/ccc/d", "h"}
+		nSess := 150
+		if !quick {
+			nSess = 1500
+		}
+		for i := 0; i < nSess; i++ {
+			parts := [][]byte{P[connects[rg.Intn(2)]]}
+			names := []string{}
+			id := 20
+			for k := 0; k < 3+rg.Intn(7); k++ {
+				id++
+				f := fs[rg.Intn(len(fs))]
+				switch rg.Intn(6) {
+				case 0, 1:
+					parts = append(parts, kit.EncSubscribe(id, []string{f}, []int{rg.Intn(3)}))
+					names = append(names, "sub "+f)
+				case 2:
+					g := fs[rg.Intn(len(fs))]
+					parts = append(parts, kit.EncSubscribe(id, []string{f, g}, []int{rg.Intn(3), rg.Intn(3)}))
+					names = append(names, "sub "+f+","+g)
+				case 3, 4:
+					parts = append(parts, kit.EncUnsubscribe(id, []string{f}))
+					names = append(names, "unsub "+f)
+				default:
+					parts = append(parts, kit.EncPublish("h/a", []byte("x"), rg.Intn(3), false, false, id))
+					names = append(names, "publish")
+				}
+			}
+			add(fmt.Sprintf("session:%v", names), cat(parts...))
+		}
+	}
 	// truncation at every byte offset
 	for _, base := range [][]byte{full, cat(P["connect-cred"], P["subscribe1"], P["publish2"]), P["connect-will"]} {
 		for i := 0; i <= len(base); i++ {
@@ -217,7 +251,7 @@ func c18Corpus(rg *rand.Rand, quick bool) []c18Stream {
 }
 
 func runC18(c *fw.Ctx) {
-	c.Rule = "corpus of client byte streams, each sent on a fresh connection to a broker node that also serves two witness clients: valid packet sequences (4 CONNECT variants x 19 following packets, packets without CONNECT, a full session), truncation of three sequences at EVERY byte offset, type-nibble and flag-nibble sweeps and 11 remaining-length corruptions (too small/large, multi-byte, 5- and 6-byte, maximal) of 9 packet kinds after CONNECT, CONNECT remaining-length/flag/byte sweeps, QoS 3, empty topic lists, identifier 0, empty bodies, length prefixes beyond the packet, and seeded byte-level havoc (quick 600, thorough 20000). Every stream's hex is logged before it is sent. 24 connections that stay silent (or send half a CONNECT) are held open throughout and a new client connects at the end. 44 well-behaved clients send valid packets of different types and lengths in three pieces each, concurrently, and must all be answered; acknowledgements are sent while their deadlines are being swept. Oracle: the broker process survives (a crash kills the child and is reported by the parent with the last streams), both witnesses are never disconnected, answer PINGREQ after every batch of streams and complete a tagged QoS 1 publish/receive round trip every 40 streams and at the end. distinct = stream bytes; non-trivial = stream differs from a valid sequence"
+	c.Rule = "corpus of client byte streams, each sent on a fresh connection to a broker node that also serves two witness clients: valid packet sequences (4 CONNECT variants x 19 following packets, packets without CONNECT, a full session, 150 / 1500 seeded sessions of 3-9 SUBSCRIBE/UNSUBSCRIBE/PUBLISH packets over filters of different lengths, repeated and out of order), truncation of three sequences at EVERY byte offset, type-nibble and flag-nibble sweeps and 11 remaining-length corruptions (too small/large, multi-byte, 5- and 6-byte, maximal) of 9 packet kinds after CONNECT, CONNECT remaining-length/flag/byte sweeps, QoS 3, empty topic lists, identifier 0, empty bodies, length prefixes beyond the packet, and seeded byte-level havoc (quick 600, thorough 20000). Every stream's hex is logged before it is sent. 24 connections that stay silent (or send half a CONNECT) are held open throughout and a new client connects at the end. 44 well-behaved clients send valid packets of different types and lengths in three pieces each, concurrently, and must all be answered; acknowledgements are sent while their deadlines are being swept. Oracle: the broker process survives (a crash kills the child and is reported by the parent with the last streams), both witnesses are never disconnected, answer PINGREQ after every batch of streams and complete a tagged QoS 1 publish/receive round trip every 40 streams and at the end. distinct = stream bytes; non-trivial = stream differs from a valid sequence"
 	c.Assume("a client that stops reading is out of scope (the property is about bytes a client sends)")
 	rg := c.SubRng("c18", 0)
 	corpus := c18Corpus(rg, c.Quick())
